@@ -601,3 +601,89 @@ func VerifC13_GraphHistory() {
 	}
 	zzverif.Reach("built")
 }
+
+// VerifC08_GraphDegenerate: structurally valid protobuf models with missing
+// optional parts through the weighted graph builder: nil type definitions, nil
+// or unset rewrites, operators without operands or with nil operands, nil
+// difference parts, nil tuple-to-userset parts, nil metadata and nil
+// restrictions.  Monitor: no panic (every path returns a graph or an error).
+func VerifC08_GraphDegenerate() {
+	var gen func(depth int) *openfgav1.Userset
+	gen = func(depth int) *openfgav1.Userset {
+		kinds := 8
+		if depth == 0 {
+			kinds = 6
+		}
+		switch zzverif.Choose("kind", kinds) {
+		case 0:
+			return nil
+		case 1:
+			return &openfgav1.Userset{}
+		case 2:
+			return fThis()
+		case 3:
+			return &openfgav1.Userset{Userset: &openfgav1.Userset_ComputedUserset{}}
+		case 4:
+			switch zzverif.Choose("ttu", 3) {
+			case 0:
+				return &openfgav1.Userset{Userset: &openfgav1.Userset_TupleToUserset{}}
+			case 1:
+				return &openfgav1.Userset{Userset: &openfgav1.Userset_TupleToUserset{TupleToUserset: &openfgav1.TupleToUserset{Tupleset: &openfgav1.ObjectRelation{Relation: "p"}}}}
+			}
+			return fTTU("a", "p")
+		case 5:
+			return fComputed("a")
+		case 6:
+			op := zzverif.Choose("op", 3)
+			switch zzverif.Choose("operands", 4) {
+			case 0:
+				switch op {
+				case 0:
+					return &openfgav1.Userset{Userset: &openfgav1.Userset_Union{}}
+				case 1:
+					return &openfgav1.Userset{Userset: &openfgav1.Userset_Intersection{Intersection: &openfgav1.Usersets{}}}
+				}
+				return &openfgav1.Userset{Userset: &openfgav1.Userset_Difference{}}
+			case 1:
+				return fOp(op, nil, fComputed("a"))
+			case 2:
+				return fOp(op, fThis(), nil)
+			}
+			return fOp(op, gen(depth-1), gen(depth-1))
+		}
+		return fOp(zzverif.Choose("op", 3), fThis(), gen(depth-1))
+	}
+	td := &openfgav1.TypeDefinition{Type: "doc", Relations: map[string]*openfgav1.Userset{"a": fThis(), "p": fThis(), "x": gen(zzverif.Param("DEPTH", 1))}}
+	switch zzverif.Choose("metadata", 5) {
+	case 1:
+		td.Metadata = &openfgav1.Metadata{}
+	case 2:
+		td.Metadata = &openfgav1.Metadata{Relations: map[string]*openfgav1.RelationMetadata{"a": nil, "p": nil, "x": nil}}
+	case 3:
+		td.Metadata = &openfgav1.Metadata{Relations: map[string]*openfgav1.RelationMetadata{
+			"a": {DirectlyRelatedUserTypes: []*openfgav1.RelationReference{nil, fRef("user")}},
+			"p": {DirectlyRelatedUserTypes: []*openfgav1.RelationReference{nil, fRef("doc")}},
+			"x": {DirectlyRelatedUserTypes: []*openfgav1.RelationReference{{}, {Type: "user", RelationOrWildcard: &openfgav1.RelationReference_Wildcard{}}}}}}
+	case 4:
+		td.Metadata = &openfgav1.Metadata{Relations: map[string]*openfgav1.RelationMetadata{
+			"a": {DirectlyRelatedUserTypes: []*openfgav1.RelationReference{fRef("user")}},
+			"p": {DirectlyRelatedUserTypes: []*openfgav1.RelationReference{fRef("doc"), fRef("ghost")}},
+			"x": {DirectlyRelatedUserTypes: []*openfgav1.RelationReference{fUserset("ghost", "r"), fWild("")}}}}
+	}
+	tds := []*openfgav1.TypeDefinition{td}
+	if zzverif.Choose("nil-typedef", 2) == 1 {
+		tds = append(tds, nil)
+	}
+	var m *openfgav1.AuthorizationModel
+	if zzverif.Choose("nil-model", 8) != 7 {
+		m = &openfgav1.AuthorizationModel{SchemaVersion: "1.1", TypeDefinitions: tds}
+	}
+	zzverif.Freeze("model", m)
+	wg, err := (&WeightedAuthorizationModelGraphBuilder{}).Build(m)
+	if err == nil {
+		zzverif.Reach("accepted")
+		zzverif.Assert(wg != nil, "result-or-error")
+	} else {
+		zzverif.Reach("rejected")
+	}
+}
